@@ -29,7 +29,7 @@ var c12Names = []c12Name{
 	{".txt", ""}, {".txt.twig", ""}, {"", "html"}, {".xml", "html"}, {".", "html"}, {".unknown.twig", "html"}, {".twig", "html"},
 }
 
-const c12Positions = 25
+const c12Positions = 29
 
 // inline sources (the template name is the source) ending in text that looks like a file extension
 var c12InlineSuffix = map[int]string{2: "v1.0 e.g. end", 3: " see notes.txt", 4: " app.js", 5: " x.css.twig"}
@@ -123,6 +123,20 @@ func c12ScenarioX(pos int, ext, E string) (tpls map[string]string, main string, 
 		tpls[main] = "{% extends 'base.html' %}{% block other %}{% endblock %}"
 		tpls["base.html"] = "A{% block b %}" + inner + "{% endblock %}Z"
 		crossType = "html"
+	// two blocks of the same name in one file
+	case 25: // two embeds overriding the same block; the print is in the later one
+		tpls[main] = "{% embed '" + t("emb") + "' %}{% block b %}{% endblock %}{% endembed %}A{% embed '" + t("emb") + "' %}{% block b %}" + inner + "{% endblock %}{% endembed %}Z"
+		tpls[t("emb")] = "{% block b %}x{% endblock %}"
+	case 26: // a block containing an embed that overrides a block of the same name
+		tpls[main] = "A{% block b %}{% embed '" + t("emb") + "' %}{% block b %}" + inner + "{% endblock %}{% endembed %}{% endblock %}Z"
+		tpls[t("emb")] = "{% block b %}x{% endblock %}"
+	case 27: // an overriding block that first embeds something overriding the same name, then prints
+		tpls[main] = "{% extends '" + t("base") + "' %}{% block b %}{% embed '" + t("emb") + "' %}{% block b %}{% endblock %}{% endembed %}" + inner + "{% endblock %}"
+		tpls[t("base")] = "A{% block b %}x{% endblock %}Z"
+		tpls[t("emb")] = "{% block b %}x{% endblock %}"
+	case 28: // the same name at two nesting levels of embeds
+		tpls[main] = "A{% embed '" + t("emb") + "' %}{% block b %}{% embed '" + t("emb") + "' %}{% block b %}" + inner + "{% endblock %}{% endembed %}{% endblock %}{% endembed %}Z"
+		tpls[t("emb")] = "{% block b %}x{% endblock %}"
 	}
 	return
 }
@@ -130,7 +144,7 @@ func c12ScenarioX(pos int, ext, E string) (tpls map[string]string, main string, 
 var c12Forms = []string{"x", "o.attr", "f()", "(x ~ '')", "(c ? x : '')", "\"#{x}\""}
 
 // modifiers: 0 none, 1 raw, 2 escape, 3 escape('html'), 4 escape(own type), 5 escape('js'), 6 safe for the same type, 7 safe for another type
-const c12Mods = 10
+const c12Mods = 11 // 10: marked safe for another type, then re-wrapped as safe for the own type (the re-wrap is discarded)
 
 type c12Loader struct{ m map[string]string }
 
@@ -223,7 +237,7 @@ func c12Run(c core.Case) core.Result {
 	if ni >= 0 {
 		ext, typ = c12Names[ni].ext, c12Names[ni].typ
 	}
-	if pos >= 22 { // mixed content types: fixed names, the print's own template decides
+	if pos >= 22 && pos <= 24 { // mixed content types: fixed names, the print's own template decides
 		if ni != 0 {
 			return core.Skipped("cross-type-position-has-fixed-names")
 		}
@@ -249,7 +263,7 @@ func c12Run(c core.Case) core.Result {
 	case 9:
 		E += "|escape('nosuch')|upper|escape('txt')"
 	}
-	if (mod == 6 || mod == 7) && form > 2 {
+	if (mod == 6 || mod == 7 || mod == 10) && form > 2 {
 		return core.Skipped("safe-value-lost-by-expression")
 	}
 	tpls, main, direct, cross := c12ScenarioX(pos, ext, E)
@@ -288,6 +302,14 @@ func c12Run(c core.Case) core.Result {
 			other = "html"
 		}
 		val = stick.NewSafeValue(payload, other)
+	case 10:
+		other := "js"
+		if typ != "html" {
+			other = "html"
+		}
+		orig := stick.NewSafeValue(payload, other)
+		_ = stick.NewSafeValue(orig, own) // a wider re-wrap of the value; the original stays safe for the other type only
+		val = orig
 	}
 	env := twig.New(&c12Loader{tpls})
 	env.Functions["f"] = func(ctx stick.Context, args ...stick.Value) stick.Value { return val }
@@ -395,13 +417,13 @@ func c12Levels(tier string) []core.Level {
 	}
 	names := append(all(len(c12Names)), -1, -2, -3, -4, -5)
 	lv := []core.Level{
-		{Name: "25 print positions x variable x all 13 payloads x all 18 template names x no modifier", Gen: func(emit func(core.Case)) {
+		{Name: "29 print positions x variable x all 13 payloads x all 18 template names x no modifier", Gen: func(emit func(core.Case)) {
 			gen(all(len(c12Payloads)), []int{0}, []int{0}, names, emit)
 		}},
-		{Name: "25 positions x 6 value forms x 13 payloads x 18 names x 10 modifiers (full product)", Gen: func(emit func(core.Case)) {
+		{Name: "29 positions x 6 value forms x 13 payloads x 18 names x 11 modifiers (full product)", Gen: func(emit func(core.Case)) {
 			gen(all(len(c12Payloads)), all(len(c12Forms)), all(c12Mods), names, emit)
 		}},
-		{Name: "values that are not strings: 25 positions x {variable, function result} x 13 payloads carried as the String() of 9 Go types (named int, int64, uint8, bool true/false, float64, float32; struct; pointer) x 18 names x {none, raw, escape, escape('html'), escape(own type)}", Gen: func(emit func(core.Case)) {
+		{Name: "values that are not strings: 29 positions x {variable, function result} x 13 payloads carried as the String() of 9 Go types (named int, int64, uint8, bool true/false, float64, float32; struct; pointer) x 18 names x {none, raw, escape, escape('html'), escape(own type)}", Gen: func(emit func(core.Case)) {
 			for pos := 0; pos < c12Positions; pos++ {
 				for _, f := range []int{0, 2} {
 					for pi := range c12Payloads {
@@ -424,7 +446,7 @@ func init() {
 	core.Register(&core.Check{
 		ID:       "C12",
 		Category: "exploration",
-		Rule: "full product of 25 print positions (top level, if / else / elseif branch, for body, for-else, block, nested block, overriding block of a child, block via parent(), inherited block, included template, embedded template, embed override block, set-capture body, filter section, macro body, imported macro; macro result / capture / parent() / block() printed with |raw; html page including a js partial, js child overriding / inheriting a block of an html base) x 6 value forms (variable, attribute, function result, concatenation, conditional, interpolation) x 13 payloads (< > \" ' & </script> \\ ; newline, multi-byte, astral, mixed) x 18 template names (html, js, css, txt with and without .twig, no extension, unknown extension, trailing dot, inline sources without a dot, with dots, and ending in '.txt' / '.js' / '.css.twig') x 10 modifiers (none, raw, escape, escape('html'), escape(own type), escape('js'), escape('txt'), a chain of unknown strategies, value marked safe for the same / another type), in a twig.New environment; and the payloads carried as the String() of 9 non-string Go types (named numeric and bool kinds, struct, pointer). " +
+		Rule: "full product of 29 print positions (top level, if / else / elseif branch, for body, for-else, block, nested block, overriding block of a child, block via parent(), inherited block, included template, embedded template, embed override block, set-capture body, filter section, macro body, imported macro; macro result / capture / parent() / block() printed with |raw; html page including a js partial, js child overriding / inheriting a block of an html base; two blocks of one name in one file: two embeds, a block containing an embed, an override embedding first, embeds at two levels) x 6 value forms (variable, attribute, function result, concatenation, conditional, interpolation) x 13 payloads (< > \" ' & </script> \\ ; newline, multi-byte, astral, mixed) x 18 template names (html, js, css, txt with and without .twig, no extension, unknown extension, trailing dot, inline sources without a dot, with dots, and ending in '.txt' / '.js' / '.css.twig') x 11 modifiers (none, raw, escape, escape('html'), escape(own type), escape('js'), escape('txt'), a chain of unknown strategies, value marked safe for the same / another type, marked safe for another type and then re-wrapped for the own type), in a twig.New environment; and the payloads carried as the String() of 9 non-string Go types (named numeric and bool kinds, struct, pointer). " +
 			"Oracle: expected content type = registered escaper of the extension, none for txt, html otherwise; a directly printed value must decode (decoder of that context) to the payload and lie in the context's inert alphabet: escaped exactly once; raw and same-type safe values verbatim; values reaching the output through a capture / macro result / parent() must be inert. distinct = distinct configuration; non-trivial = an assertion was made",
 		Assumptions: []string{
 			"for an explicit escape of another type (html inside js/css, js inside css, txt or an unknown strategy anywhere) 'exactly once' is ambiguous; only inertness for the template's own type is asserted, which the statement pins under either reading",
